@@ -560,7 +560,7 @@ def binopType (sc : Bool) (op : BinOp) (l r : Operand) : Option Ty :=
         if r'.nullconst then some Ty.int
         else match r'.ty with
           -- `if (r->type->kind != TYPEPOINTER) error(...)` comes before the `nullpointer(eval(l))`
-          -- shortcut (fix 2e6f4ec)
+          -- shortcut (fix 826c347)
           | .ptr _ rb => if l'.nullconst then some Ty.int else if ptrEqOk lb rb then some Ty.int else none
           | _ => none
       | _ => none
@@ -592,7 +592,7 @@ def binopType (sc : Bool) (op : BinOp) (l r : Operand) : Option Ty :=
         else if lb.incomplete || lb.isFunc then none
         else if r.ty.isInt then some l.ty
         else match r.ty with
-          -- `if (r->type->base->incomplete) error(...)` after the compatibility test (fix 802a13f)
+          -- `if (r->type->base->incomplete) error(...)` after the compatibility test (fix ac293b9)
           | .ptr _ rb => if typecompatible lb rb then (if rb.incomplete then none else some Ty.long) else none
           | _ => none
       | _ => none
@@ -622,7 +622,7 @@ def condRes (sc : Bool) (l r : Operand) : Option (Ty × Operand × Operand) :=
 /-- `condexpr`: type of `c ? l : r`.  `cond` is the controlling operand (only its `constval`
 matters: the constant-condition shortcut returns `exprconvert(c ? l : r, t)`). -/
 def condType (sc : Bool) (cond l r : Operand) : Option Ty :=
-  -- `if (!(e->type->prop & PROPSCALAR)) error(...)` (fix 8620260)
+  -- `if (!(e->type->prop & PROPSCALAR)) error(...)` (fix 98b06a1)
   if !cond.ty.isScalar then none else
   match condRes sc l r with
   | none => none
@@ -630,14 +630,14 @@ def condType (sc : Bool) (cond l r : Operand) : Option Ty :=
     match cond.constval with
     | some c =>
       -- the shortcut is taken only when the selected operand is neither an lvalue nor a bit-field
-      -- (fix 7cf2154); otherwise the ordinary `EXPRCOND` node of type `t` is built
+      -- (fix f22c49c); otherwise the ordinary `EXPRCOND` node of type `t` is built
       let sel := exprconvert (if c then l' else r') t
       some (if !sel.lvalue && sel.width.isNone then sel.ty else t)
     | none => some t
 
 /-- the expression `condexpr` returns: an `EXPRCOND` node of type `t`, or — constant condition —
 the selected operand itself after `exprconvert` when that is neither an lvalue nor a bit-field
-(fix 7cf2154: `(1 ? x : y) = 3` used to be accepted) -/
+(fix f22c49c: `(1 ? x : y) = 3` used to be accepted) -/
 def condOperand (sc : Bool) (cond l r : Operand) : Option Operand :=
   if !cond.ty.isScalar then none else
   match condRes sc l r with
@@ -678,7 +678,7 @@ def unaryOp (sc : Bool) (op : UnOp) (e : Operand) : Option Operand :=
       | some (t, q) => (t, q, true, false)
       | none => (e.ty, e.qual, e.lvalue, e.width.isSome)
     -- `unaryexpr`: the operand of a user-level `&` that is not a decayed designator must be an
-    -- lvalue or a function designator (fix c22baea) …
+    -- lvalue or a function designator (fix fcded40) …
     if e.decayedFrom.isNone && !e.lvalue && !e.ty.isFunc then none
     -- … `mkunaryexpr` itself exempts struct/union operands (it also serves member access)
     else if !lv && !t.isFunc && !t.isStructUnion then none
@@ -716,7 +716,7 @@ def unaryOp (sc : Bool) (op : UnOp) (e : Operand) : Option Operand :=
   | .preinc | .predec | .postinc | .postdec =>
     if !e.lvalue then none
     else if e.qual.c then none
-    -- pointer to an incomplete or function type (fix 93895c0)
+    -- pointer to an incomplete or function type (fix df57034)
     else if (match e.ty with | .ptr _ b => b.incomplete || b.isFunc | _ => false) then none
     else some (rvalue e.ty)
 
@@ -756,7 +756,7 @@ def exprassignOk (t : Ty) (e : Operand) : Bool :=
   | _ => false
 
 /-- `assignexpr`, simple assignment: `l` must be an lvalue and `mkassignexpr(l, exprassign(r, l->type))`
-(fix 132893c: the operator applies the constraints of 6.5.16.1 like initialisation does);
+(fix 7e9d66c: the operator applies the constraints of 6.5.16.1 like initialisation does);
 type of the left operand -/
 def assignType (l r : Operand) : Option Operand :=
   if l.lvalue then (if exprassignOk l.ty r then some (rvalue l.ty) else none) else none
@@ -777,7 +777,7 @@ return type (`decay` is applied, which cannot fire for a valid return type) -/
 def callType (f : Operand) (nargs : Nat) : Option Operand :=
   match f.ty with
   | .ptr _ (.func _ ret params vararg) =>
-    -- "not enough arguments": every named parameter needs an argument, variadic or not (fix e3588ce)
+    -- "not enough arguments": every named parameter needs an argument, variadic or not (fix 49541f0)
     if nargs < params.length then none
     else if nargs > params.length && !vararg then none
     else some (decay (rvalue ret))
@@ -808,7 +808,7 @@ def memberType (arrow : Bool) (e : Operand) (mty : Ty) (mq : Qual) (bits : Optio
     else
       let r := decay { ty := mty, qual := tq.union mq, lvalue := true }
       -- `(r->decayed ? r->base : r)->lvalue = lvalue;` — a member of array (or function) type has decayed
-      -- to a pointer, which is not an lvalue (fix 2005721)
+      -- to a pointer, which is not an lvalue (fix 71be578)
       some { r with lvalue := if r.decayedFrom.isSome then false else lv, width := memberWidth mty bits }
   | none => none
 
